@@ -554,22 +554,84 @@ def check_single_removal(ctx, db):
     ctx.touch(f)
     norm = lambda t: re.sub(r'<[A-Za-z]+:(?!:)[^>]*>', '', t).replace('gdstk::', '')
     incs = [x for x in f.walk() if x.k == 'UnaryOperator' and x.op in ('++', 'post++') and norm(x.child('sub').text()) == 'removed']
-    bad = []
-    for x in incs:
-        blk = x.parent
-        if blk is None or blk.k != 'CompoundStmt':
-            bad.append('%s: removal count updated outside a block' % x.loc())
-            continue
-        i = blk.c.index(x)
-        nxt = next((s_ for s_ in blk.c[i + 1:] if s_ is not None), None)
-        ok = nxt is not None and nxt.k == 'IfStmt' and norm(nxt.child('cond').text()) == '(!all_occurences)' and nxt.child('else') is None
-        if ok:
-            th = nxt.child('then')
-            ok = th.k == 'ReturnStmt' or (th.k == 'CompoundStmt' and len([c for c in th.c if c is not None]) == 1 and th.c[0].k == 'ReturnStmt')
-        if not ok:
-            bad.append('%s: after this removal the function does not return under `!all_occurences`' % x.loc())
-    ctx.check(len(incs) == 2 and not bad, 'R-MUSTPASS', 'remove_property/single-occurrence-exit', f.loc(), 'both removal sites (list head, interior) return immediately when only one occurrence is requested',
-              '; '.join(bad) or 'expected two removal sites, found %d' % len(incs))
+    # Abstract interpretation over the CFG with all_occurences = false: the state is (removals so far capped at 2, known values of
+    # the boolean locals); branch conditions over these booleans and the parameter prune infeasible edges. Early returns, a `done`
+    # flag with a single exit, or a mix give the same answer: no state with two removals is reachable.
+    g = f.cfg
+    inc_ids = {x.id for x in incs}
+    ao = next((p_ for p_ in f.params if p_['n'] == 'all_occurences'), None)
+    if ao is None or not incs:
+        raise AnalysisBroken('remove_property: parameter all_occurences / removal counter not found')
+    flagd = {v.d: v.n for v in f.walk() if v.k == 'VarDecl' and (v.ct or v.t or '').replace('const ', '').strip() == 'bool'}
+
+    def bval(e, flags):
+        e = flow._strip_casts(e)
+        if e is None:
+            return None
+        if e.k == 'ParenExpr':
+            return bval(e.c[0], flags)
+        if e.k == 'CXXBoolLiteralExpr':
+            return bool(e.v)
+        if e.k == 'UnaryOperator' and e.op == '!':
+            v = bval(e.child('sub'), flags)
+            return None if v is None else (not v)
+        if e.k == 'DeclRefExpr' and e.dk == 'param' and e.d == ao['d']:
+            return False
+        if e.k == 'DeclRefExpr' and e.d in flagd:
+            return dict(flags).get(e.d)
+        if e.k == 'BinaryOperator' and e.op in ('&&', '||'):
+            a, b = bval(e.child('lhs'), flags), bval(e.child('rhs'), flags)
+            if e.op == '&&':
+                return False if (a is False or b is False) else (True if (a and b) else None)
+            return True if (a is True or b is True) else (False if (a is False and b is False) else None)
+        return None
+
+    def setflag(flags, d, v):
+        fl = dict(flags)
+        if v is None:
+            fl.pop(d, None)
+        else:
+            fl[d] = v
+        return tuple(sorted(fl.items()))
+
+    def transfer(n, st):
+        out = set()
+        for cnt, flags in st:
+            if n.id in inc_ids:
+                out.add((min(2, cnt + 1), flags))
+            elif n.k == 'VarDecl' and n.d in flagd:
+                out.add((cnt, setflag(flags, n.d, bval(n.child('init'), flags) if n.child('init') is not None else None)))
+            elif is_assign(n) and n.op == '=' and flow._strip_casts(n.child('lhs')).k == 'DeclRefExpr' and flow._strip_casts(n.child('lhs')).d in flagd:
+                out.add((cnt, setflag(flags, flow._strip_casts(n.child('lhs')).d, bval(n.child('rhs'), flags))))
+            else:
+                out.add((cnt, flags))
+        return frozenset(out)
+
+    def refine(blk, k_, succ, st):
+        if len(blk.s) != 2 or blk.tc is None:
+            return st
+        c = g.branch_cond(blk)
+        want = (k_ == 0)
+        out = set()
+        for cnt, flags in st:
+            v = bval(c, flags)
+            if v is not None and v != want:
+                continue
+            fl = flags
+            c0 = flow._strip_casts(c)
+            neg = False
+            while c0 is not None and c0.k == 'UnaryOperator' and c0.op == '!':
+                neg = not neg
+                c0 = flow._strip_casts(c0.child('sub'))
+            if c0 is not None and c0.k == 'DeclRefExpr' and c0.d in flagd and v is None:
+                fl = setflag(flags, c0.d, want != neg)
+            out.add((cnt, fl))
+        return frozenset(out) if out else None
+    ins, _ = g.forward(frozenset({(0, ())}), transfer, refine)
+    twice = any(cnt >= 2 for st in ins.values() for cnt, _fl in st)
+    ctx.explored['valuations'] += sum(len(st) for st in ins.values())
+    ctx.check(len(incs) >= 1 and not twice, 'R-MUSTPASS', 'remove_property/single-occurrence-exit', f.loc(), 'with all_occurences == false no path removes a second entry (%d removal sites; abstract interpretation over the CFG with the boolean locals tracked)' % len(incs),
+              'with all_occurences == false a second removal is reachable after the first: more than one entry is removed')
 
 
 def check_key_widths(ctx, db):
